@@ -1,10 +1,10 @@
 #!/bin/bash
 # runs every claimed check of MANIFEST.json once (tier from $1, default quick) and prints rc / wall time
 tier=${1:-quick}
-cd /verif
+cd "$(dirname "$(readlink -f "$0")")"
 for id in $(python3 -c "import json; print(' '.join(c['property_id'] for c in json.load(open('MANIFEST.json'))['checks']))"); do
   s=$(date +%s)
-  python3 check.py $id --tier $tier > /tmp/run_all_$id.out 2>&1; rc=$?
+  python3 check.py $id --tier $tier > /tmp/run_all_${tier}_$id.out 2>&1; rc=$?
   e=$(date +%s)
-  echo "$id rc=$rc wall=$((e-s))s $(grep -E '^\[.*\] OK|^VIOLATION|^INCONCLUSIVE' /tmp/run_all_$id.out | head -2 | cut -c1-150 | tr '\n' '|')"
+  echo "$id rc=$rc wall=$((e-s))s $(grep -E '^\[.*\] OK|^VIOLATION|^INCONCLUSIVE' /tmp/run_all_${tier}_$id.out | head -2 | cut -c1-150 | tr '\n' '|')"
 done
